@@ -80,6 +80,33 @@ def _build(spec):
             g = smcdrv.project_group(spec["id"], [r1, r2])
         elif b == "resume":
             g = _build_resume(spec["id"], p)
+        elif b == "calls":
+            import gendrv
+            r = gendrv.run_calls(p["cfg"])
+            g = gendrv.project_calls_group(spec["id"], [r])
+        elif b == "calls_repeat":
+            import gendrv
+            import numpy as np
+            import random as _r
+            ids = smcdrv.IdTable()
+            r1 = gendrv.run_calls(p["cfg"], ids=ids, role="reference")
+            np.random.seed(192837465 % (2**31)); _r.seed(5)
+            c2 = dict(p["cfg"]); c2["kseed"] = p["cfg"].get("kseed", p["cfg"].get("seed", 1))
+            r2 = gendrv.run_calls(c2, ids=ids, role="repeat")
+            g = gendrv.project_calls_group(spec["id"], [r1, r2])
+        elif b == "flow_pair":
+            import gendrv
+            g = gendrv.flow_pair_group(spec["id"], p["cfg"])
+        elif b == "aspire_single":
+            wd = workdir("asp")
+            try:
+                c = dict(p["cfg"]); c["path"] = str(wd / "run.h5")
+                r = smcdrv.run_aspire(c)
+                g = smcdrv.project_group(spec["id"], [r])
+            finally:
+                cleanup(wd)
+        elif b == "aspire_resume":
+            g = _build_aspire_resume(spec["id"], p)
         else:
             raise ValueError(b)
         g["spec"] = spec
@@ -148,6 +175,47 @@ def _build_resume(gid, p):
     finally:
         if wd:
             cleanup(wd)
+
+
+def _build_aspire_resume(gid, p):
+    """Top-level API: reference run ‖ run interrupted at likelihood/prior call k (checkpoints
+    written by the library's file callback) ‖ Aspire.resume_from_file(file).sample_posterior(same
+    arguments)."""
+    import smcdrv
+    import h5py
+    ids = smcdrv.IdTable()
+    wd = workdir("aspres")
+    try:
+        cfg = dict(p["cfg"])
+        cref = dict(cfg); cref["path"] = str(wd / "ref.h5")
+        ref = smcdrv.run_aspire(cref, ids=ids, role="reference")
+        c2 = dict(cfg); c2["path"] = str(wd / "run.h5")
+        c2["fault_k"] = p["fault_k"]; c2["fault_on"] = p.get("fault_on", "like")
+        crashed = smcdrv.run_aspire(c2, ids=ids, role="crashed")
+        runs = [ref, crashed]
+        if crashed["status"] == "fault":
+            blob = None
+            try:
+                with h5py.File(c2["path"], "r") as f:
+                    if "checkpoint" in f and "state" in f["checkpoint"]:
+                        blob = f["checkpoint"]["state"][...].tobytes()
+            except Exception:
+                blob = None
+            if blob is not None:
+                c3 = dict(cfg); c3["path"] = c2["path"]
+                try:
+                    state = pickle.loads(blob)
+                except Exception:
+                    state = None
+                res = smcdrv.run_aspire(c3, ids=ids, role="resumed", resume_file=c2["path"])
+                if state is not None:
+                    res["restore_state"] = state
+                runs.append(res)
+        g = smcdrv.project_group(gid, runs)
+        g["cfg"]["route"] = "file"
+        return g
+    finally:
+        cleanup(wd)
 
 
 def build_groups(specs, procs=None):
@@ -395,6 +463,33 @@ def corpus_general(tier, seed, rnd, n=None):
     return [_mk(i, "single", {"cfg": c}) for i, c in enumerate(specs)]
 
 
+def corpus_calls(tier, seed, rnd, n=None, repeat=False):
+    specs = []
+    n = n or (60 if tier == "quick" else 1500)
+    for i in range(n):
+        smp = rnd.choice(["importance", "minipcn", "emcee"])
+        ns = rnd.choice(["numpy"] * 4 + ["torch", "jax"])
+        if smp != "importance":
+            ns = rnd.choice(["numpy"] * 5 + ["torch"]) if smp == "minipcn" else "numpy"
+        c = dict(sampler=smp, ns=ns, N=rnd.choice([4, 8, 16]), dims=rnd.choice([1, 2, 3]),
+                 width=rnd.choice([0.2, 0.5, 1.0]), seed=seed * 313 + i,
+                 precond=rnd.choice(["none", "default", "affine", "logit", "full"]) if smp != "importance" else "none",
+                 recipe=rnd.choice([False, True]), bad_frac=rnd.choice([0.0, 0.3, 0.9]),
+                 dtype=rnd.choice([None, "float64", "float32"]), split=rnd.choice([1, 2]))
+        if ns == "torch" and c["dtype"] is None:
+            c["dtype"] = "float32"
+        if ns == "jax" and c["dtype"] is None:
+            c["dtype"] = "float64"
+        if smp in ("minipcn", "emcee") and ns != "numpy":
+            c["ns"] = "numpy"
+            if c["dtype"] is None:
+                pass
+        specs.append(_mk(i, "calls_repeat" if repeat else "calls", {"cfg": c}))
+    for sp in specs:
+        sp["id"] = "c" + sp["id"]
+    return specs
+
+
 def corpus_variants(tier, seed, rnd):
     """C08 EvidenceIndependent: same seeds, differing n_final / cadence."""
     specs = []
@@ -451,6 +546,70 @@ def corpus_resume(tier, seed, rnd):
     return specs
 
 
+def corpus_file(tier, seed, rnd):
+    """C12: library file callback, cadence 1..4, fault at each likelihood / prior call."""
+    import smcdrv
+    specs = []
+    k = 0
+    n_cfg = 8 if tier == "quick" else 80
+    cfgs = []
+    for i in range(n_cfg):
+        c = dict(N=rnd.choice([4, 8]), width=rnd.choice([0.2, 0.5, 1.0]), seed=seed * 77 + i,
+                 every=rnd.choice([None, 1, 2, 3, 4]), mcmc_steps=rnd.choice([1, 2]),
+                 sampler=rnd.choice(["minipcn_smc"] * 3 + ["emcee_smc"]),
+                 precond=rnd.choice(["default", "none"]))
+        r = rnd.random()
+        if r < 0.3:
+            c.update(adaptive=False, n_steps=rnd.choice([1, 2, 3, 5, 6]))
+        elif r < 0.5 and c["sampler"] == "minipcn_smc":
+            c.update(max_n_steps=rnd.choice([2, 4]))
+        if rnd.random() < 0.4:
+            c["n_final"] = c["N"] * 2
+        cfgs.append(c)
+    for c in cfgs:
+        specs.append(_mk(k, "aspire_single", {"cfg": c})); k += 1
+        wd = workdir("probe")
+        try:
+            cc = dict(c); cc["path"] = str(wd / "p.h5")
+            ref = smcdrv.run_aspire(cc)
+        finally:
+            cleanup(wd)
+        nlike, nprior = ref["tracer"].k, ref["tracer"].kp
+        ks = list(range(1, nlike + 1))
+        lim = 8 if tier == "quick" else 30
+        if len(ks) > lim:
+            ks = sorted(rnd.sample(ks, lim))
+        for fk in ks:
+            specs.append(_mk(k, "aspire_resume", {"cfg": c, "fault_k": fk, "fault_on": "like"})); k += 1
+        kps = sorted(rnd.sample(range(1, nprior + 1), min(nprior, 3 if tier == "quick" else 10)))
+        for fk in kps:
+            specs.append(_mk(k, "aspire_resume", {"cfg": c, "fault_k": fk, "fault_on": "prior"})); k += 1
+    # sampler-level runs with the harness callback (checkpoint events observed directly)
+    for i in range(40 if tier == "quick" else 600):
+        c = dict(N=rnd.choice([4, 8]), width=rnd.choice([0.2, 0.5, 1.0]), seed=seed * 13 + i,
+                 every=rnd.choice([1, 2, 3, 4, 5]), mcmc_steps=1)
+        if rnd.random() < 0.5:
+            c.update(adaptive=False, n_steps=rnd.choice([1, 2, 3, 4, 5, 6, 8]))
+        if rnd.random() < 0.3:
+            c["n_final"] = c["N"] + 3
+        specs.append(_mk(k, "single", {"cfg": c})); k += 1
+    return specs
+
+
+def corpus_c20(tier, seed, rnd):
+    specs = corpus_repeat(tier, seed, rnd)
+    specs += corpus_calls(tier, seed, rnd, n=40 if tier == "quick" else 600, repeat=True)
+    k = 0
+    for backend in ("zuko", "flowjax"):
+        for dtype in ("float32", "float64"):
+            for sd in ([1, 2] if tier == "quick" else [1, 2, 3, 4, 5, 6]):
+                specs.append({"id": f"f{k:04d}", "builder": "flow_pair",
+                              "params": {"cfg": {"backend": backend, "dtype": dtype, "seed": sd + seed,
+                                                 "epochs": 2}}})
+                k += 1
+    return specs
+
+
 def corpus_repeat(tier, seed, rnd):
     specs = []
     n = 40 if tier == "quick" else 600
@@ -482,6 +641,196 @@ def e1_smcrun(tier):
     return r
 
 
+def e3_blob(verdict, tier, seed):
+    """Blob.tla exhaustive + every maximal behaviour replayed on the real dump_state."""
+    import io
+    import re
+    import h5py
+    import numpy as np
+    from aspire.utils import dump_state
+    from aspire.samplers.base import Sampler
+    depth = 5 if tier == "quick" else 7
+    sizes = "{1, 2, 3}" if tier == "quick" else "{1, 2, 3, 4}"
+    wd = workdir("blob")
+    try:
+        cfg = wd / "MC_Blob_run.cfg"
+        cfg.write_text(f"SPECIFICATION Spec\nCONSTANTS\n  Sizes = {sizes}\n  Depth = {depth}\n  ResizeOnChange = TRUE\n"
+                       "INVARIANT BlobExact\nINVARIANT NeverRaises\nCONSTRAINT Export\n")
+        r = run_tlc("Blob", str(cfg), workers=1, metaname="blob")
+        require_tlc_ok(r, "Blob")
+        if r.violated:
+            verdict.model_drift(f"Blob.tla: {r.violated} violated at design level")
+        behs = []
+        for m in re.finditer(r'<<\s*"BEHAVIOUR"', r.out):
+            pz = common._P(r.out[m.start():])
+            behs.append(list(pz.value()[1]))
+        if not behs:
+            raise MachineryError("Blob.tla exported no behaviours")
+        rng = np.random.default_rng(seed)
+        base = 257
+        bad = 0
+        smp = Sampler.__new__(Sampler)
+        for beh in behs:
+            with h5py.File(f"blob-{os.getpid()}.h5", "w", driver="core", backing_store=False) as fp:
+                lastb = None
+                for i, n in enumerate(beh):
+                    state = {"iteration": i, "payload": rng.bytes(base * n + int(rng.integers(0, 7)))}
+                    if i % 2 == 0:
+                        dump_state(state, fp, path="checkpoint", dsetname="state")
+                    else:
+                        smp.save_checkpoint_to_hdf(state, fp, path="checkpoint", dsetname="state")
+                    lastb = pickle.dumps(state, protocol=pickle.HIGHEST_PROTOCOL)
+                    got = fp["checkpoint"]["state"][...].tobytes()
+                    ok = got == lastb
+                    if ok:
+                        try:
+                            ok = pickle.loads(got) == state
+                        except Exception:
+                            ok = False
+                    if not ok:
+                        bad += 1
+                        verdict.violation("BlobExact|size-sequence",
+                                          f"BlobExact: after writing payload sizes {beh[:i+1]} (relative) the dataset is not byte-for-byte the last pickle (len {len(got)} vs {len(lastb)})",
+                                          replay={"builder": "blob", "params": {"sizes": beh[:i + 1]}})
+                        break
+        return {"blob_behaviours_replayed": len(behs), "blob_mismatches": bad,
+                "blob_states": r.distinct, "blob_transitions": r.generated}
+    finally:
+        cleanup(wd)
+
+
+ROUTING_CLASSES = {
+    "MiniPCNSMC": ("aspire.samplers.smc.minipcn", "MiniPCNSMC", "smc"),
+    "EmceeSMC": ("aspire.samplers.smc.emcee", "EmceeSMC", "emcee_smc"),
+    "MiniPCN": ("aspire.samplers.mcmc", "MiniPCN", "minipcn"),
+    "Emcee": ("aspire.samplers.mcmc", "Emcee", "emcee"),
+}
+
+
+def e3_routing(verdict, tier, seed):
+    """Routing.tla with parameter sets extracted from the working tree (inspect.signature),
+    model-checked; every (class, route) case replayed on the real samplers."""
+    import importlib
+    import inspect
+    import re
+    import numpy as np
+    import smcdrv
+    import gendrv
+    import emcee as emcee_stub
+    import minipcn as minipcn_stub
+    import orng as orng_stub
+    import verifflow_mod
+    sig = {}
+    for name, (mod, cls, _) in ROUTING_CLASSES.items():
+        C = getattr(importlib.import_module(mod), cls)
+        ip = inspect.signature(C.__init__).parameters
+        sp = inspect.signature(C.sample).parameters
+        sig[name] = dict(init="rng" in ip, sample="rng" in sp,
+                         kwargs=any(q.kind == q.VAR_KEYWORD for q in sp.values()))
+    def fn(key):
+        return "(" + " @@ ".join(f'"{n}" :> {"TRUE" if sig[n][key] else "FALSE"}' for n in sig) + ")"
+    wd = workdir("routing")
+    try:
+        (wd / "MC_Routing.tla").write_text(
+            "---- MODULE MC_Routing ----\nEXTENDS Routing\n"
+            f"MCClasses == {{{', '.join(chr(34) + n + chr(34) for n in sig)}}}\n"
+            f"MCInit == {fn('init')}\nMCSample == {fn('sample')}\nMCKw == {fn('kwargs')}\n"
+            'MCKeeps == {"MiniPCNSMC"}\nMCUses == {"MiniPCN"}\nMCPrivate == {"EmceeSMC", "Emcee"}\n====\n')
+        (wd / "Routing.tla").write_text((common.SPEC / "Routing.tla").read_text())
+        (wd / "MC_Routing.cfg").write_text(
+            "SPECIFICATION Spec\nCONSTANTS\n  Classes <- MCClasses\n  InitHasRng <- MCInit\n  SampleHasRng <- MCSample\n"
+            "  SampleHasKwargs <- MCKw\n  KeepsInitRng <- MCKeeps\n  SampleUsesRng <- MCUses\n  KernelPrivate <- MCPrivate\n"
+            "INVARIANT UserRngUsedExceptPrivate\nCONSTRAINT Export\n")
+        r = run_tlc("MC_Routing", "MC_Routing.cfg", workers=1, specdir=wd, metaname="routing")
+        require_tlc_ok(r, "MC_Routing")
+        for inv in r.violated:
+            verdict.model_drift(f"Routing.tla: {inv} violated at design level with the extracted signatures {sig}")
+        cases = set()
+        for m in re.finditer(r'<<\s*"CASE"', r.out):
+            v = common._P(r.out[m.start():]).value()
+            cases.add(tuple(v[1:]))
+    finally:
+        cleanup(wd)
+    replayed = 0
+    for (cls, route, outcome, resg, kerg) in sorted(cases):
+        if route == "absent":
+            continue
+        mod, cname, stype = ROUTING_CLASSES[cls]
+        C = getattr(importlib.import_module(mod), cname)
+        ids = smcdrv.IdTable()
+        prob = smcdrv.Problem(2, 0.5, 1.0)
+        tr = smcdrv.Tracer(prob, ids)
+        flow = smcdrv.make_flow(dict(smcdrv.DEFAULT), prob, None)
+        urng = smcdrv.LoggingRNG(np.random.default_rng(seed + 5), tr)
+        minipcn_stub.reset(); emcee_stub.reset()
+        minipcn_stub.OBSERVER = tr.kernel_event; emcee_stub.OBSERVER = tr.kernel_event
+        minipcn_stub.MAX_SAMPLE_CALLS = emcee_stub.MAX_SAMPLE_CALLS = None
+        orng_stub.CREATED.clear()
+        real = "ok"
+        xp = smcdrv.get_xp("numpy")
+        try:
+            skw = {"n_steps": 1} if cls in ("MiniPCNSMC",) else ({"nsteps": 1, "progress": False} if cls == "EmceeSMC" else None)
+            if route == "top":
+                from aspire import Aspire
+                a = Aspire(log_likelihood=tr.log_likelihood, log_prior=tr.log_prior, dims=2,
+                           parameters=["x_0", "x_1"], flow=flow, xp=xp)
+                kw = dict(n_samples=6, sampler=stype, rng=urng)
+                if skw is not None:
+                    kw["sampler_kwargs"] = skw
+                elif cls == "MiniPCN":
+                    kw["n_steps"] = 2
+                elif cls == "Emcee":
+                    kw["nsteps"] = 2
+                a.sample_posterior(**kw)
+            else:
+                ikw = {"rng": urng} if route == "init" else {}
+                smp = C(log_likelihood=tr.log_likelihood, log_prior=tr.log_prior, dims=2, prior_flow=flow,
+                        xp=xp, parameters=["x_0", "x_1"], **ikw)
+                kw = {"rng": urng} if route == "sample" else {}
+                if skw is not None:
+                    kw["sampler_kwargs"] = skw
+                elif cls == "MiniPCN":
+                    kw["n_steps"] = 2
+                elif cls == "Emcee":
+                    kw["nsteps"] = 2
+                smp.sample(6, **kw)
+        except TypeError as ex:
+            real = "type_error"
+        except Exception as ex:
+            real = f"raised:{type(ex).__name__}"
+        finally:
+            minipcn_stub.OBSERVER = None; emcee_stub.OBSERVER = None; verifflow_mod.OBSERVER = None
+        replayed += 1
+        kb = [e for e in tr.ev if e["t"] == "kbegin"]
+        kernel_user = bool(kb) and all(e["_rng"] is urng for e in kb)
+        resample_user = urng.nchoice > 0
+        scen = {"builder": "routing_case", "params": {"cls": cls, "route": route}}
+        if (outcome == "type_error") != (real == "type_error"):
+            verdict.model_drift(f"Routing: {cls}/{route}: model says {outcome}, code says {real}")
+            continue
+        if real.startswith("raised"):
+            verdict.violation(f"NeverRaises|routing|{cls}|{route}", f"{cls} with rng supplied by route {route}: {real}", scen)
+            continue
+        if real != "ok":
+            continue
+        if not kernel_user:
+            what = f"UserRngUsed: {cls}: a generator supplied through route '{route}' is accepted but the kernel never draws from it"
+            verdict.violation(f"UserRngUsed|{cls}|kernel", what, scen)
+            if kerg == "user":
+                verdict.model_drift(f"Routing: {cls}/{route}: model predicted the user's generator in the kernel")
+        elif kerg != "user":
+            verdict.model_drift(f"Routing: {cls}/{route}: kernel uses the user's generator but the model predicted {kerg}")
+        if cls in ("MiniPCNSMC", "EmceeSMC"):
+            if not resample_user:
+                verdict.violation(f"UserRngUsed|{cls}|resample", f"UserRngUsed: {cls}: generator supplied through '{route}' is not used for resampling", scen)
+            elif resg != "user":
+                verdict.model_drift(f"Routing: {cls}/{route}: resampling uses the user's generator but the model predicted {resg}")
+        if orng_stub.CREATED and cls == "MiniPCNSMC":
+            verdict.violation(f"UserRngUsed|{cls}|default-created", f"{cls}: a default generator was created although the user supplied one via '{route}'", scen)
+    return {"routing_cases_replayed": replayed, "routing_signatures": sig,
+            "tlc_states": r.distinct, "tlc_transitions": r.generated}
+
+
 def signature(clause, g, ri):
     cfg = g["cfg"]
     run = g["runs"][ri - 1] if ri - 1 < len(g["runs"]) else {}
@@ -506,7 +855,7 @@ def signature(clause, g, ri):
     return "|".join(str(f) for f in feats)
 
 
-def run_check(prop, tier, seed, corpus_fn, e1_fns, note_rule, replay=None, extra_owner=()):
+def run_check(prop, tier, seed, corpus_fn, e1_fns, note_rule, replay=None, extra_owner=(), extra_fn=None):
     t0 = time.time()
     rnd = random.Random(seed * 9176 + 17)
     verdict = Verdict(prop)
@@ -520,12 +869,15 @@ def run_check(prop, tier, seed, corpus_fn, e1_fns, note_rule, replay=None, extra
                         "wall_s": round(r.wall, 1), "violated": r.violated})
         for inv in r.violated:
             verdict.model_drift(f"design model {r.cmd[-1]}: invariant {inv} violated (design-level only; not confirmed on code)")
-    if replay:
+    only_extra = bool(replay) and replay.get("builder") in ("routing_case", "blob")
+    if only_extra:
+        specs = []
+    elif replay:
         specs = [replay]
     else:
         specs = corpus_fn(tier, seed, rnd)
     tb = time.time()
-    groups = build_groups(specs)
+    groups = build_groups(specs) if specs else []
     print(f"[{prop}] built {len(groups)} groups in {time.time()-tb:.1f}s", flush=True)
     errs = [g for g in groups if "error" in g]
     if errs:
@@ -533,7 +885,7 @@ def run_check(prop, tier, seed, corpus_fn, e1_fns, note_rule, replay=None, extra
     # self-test corruptions of some accepted single groups
     st = []
     tb = time.time()
-    verdicts, s1, t1 = validate(groups, prop)
+    verdicts, s1, t1 = validate(groups, prop) if groups else ({}, 0, 0)
     print(f"[{prop}] TLC validated {len(groups)} traces in {time.time()-tb:.1f}s", flush=True)
     tlc_states += s1
     tlc_trans += t1
@@ -584,6 +936,11 @@ def run_check(prop, tier, seed, corpus_fn, e1_fns, note_rule, replay=None, extra
                     distinct.add(note_rule(g, r, fin))
     for clause, gid in sorted(drift_seen.items()):
         verdict.model_drift(f"conformance clause {clause} rejected real runs (first: group {gid}); the implementation-shaped model does not describe this tree there")
+    extra_cov = {}
+    if extra_fn is not None and (only_extra or not replay):
+        extra_cov = extra_fn(verdict, tier, seed) or {}
+        tlc_states += extra_cov.get("blob_states", 0) + extra_cov.get("tlc_states", 0)
+        tlc_trans += extra_cov.get("blob_transitions", 0) + extra_cov.get("tlc_transitions", 0)
     rc, n_unlisted, known = verdict.finish()
     samples = []
     for g in groups[:2]:
@@ -604,6 +961,7 @@ def run_check(prop, tier, seed, corpus_fn, e1_fns, note_rule, replay=None, extra
         "binding_selftest": selftest,
         "known_findings_hit": known,
     }
+    cov.update(extra_cov)
     write_evidence(prop, tier, seed, time.time() - t0, cov, STD_ASSUMPTIONS, n_unlisted)
     return rc
 
@@ -618,9 +976,11 @@ CHECKS = {
     "C06": dict(corpus=corpus_schedule, e1=[e1_tempering]),
     "C07": dict(corpus=corpus_schedule, e1=[e1_tempering]),
     "C08": dict(corpus=lambda t, s, r: corpus_general(t, s, r, 200 if t == "quick" else 3000) + [dict(x, id="v" + x["id"]) for x in corpus_variants(t, s, r)], e1=[e1_smcrun]),
-    "C10": dict(corpus=corpus_general, e1=[e1_smcrun]),
+    "C10": dict(corpus=lambda t, s, r: corpus_general(t, s, r) + corpus_calls(t, s, r), e1=[e1_smcrun]),
     "C11": dict(corpus=corpus_resume, e1=[e1_smcrun]),
-    "C17": dict(corpus=corpus_general, e1=[e1_smcrun]),
+    "C12": dict(corpus=corpus_file, e1=[e1_smcrun], extra=e3_blob),
+    "C17": dict(corpus=lambda t, s, r: corpus_general(t, s, r) + corpus_calls(t, s, r), e1=[e1_smcrun]),
+    "C20": dict(corpus=corpus_c20, e1=[], extra=e3_routing),
     "C18": dict(corpus=lambda t, s, r: corpus_general(t, s, r, 200 if t == "quick" else 3000) + [dict(x, id="r" + x["id"]) for x in corpus_resume(t, s, r)][: (150 if t == "quick" else 3000)], e1=[e1_smcrun]),
 }
 
@@ -631,4 +991,4 @@ def main(prop, tier, seed, replay_path=None):
     if replay_path:
         replay = json.loads(open(replay_path).read())["scenario"]
     return run_check(prop, tier, seed, spec["corpus"], spec["e1"], rule_default, replay=replay,
-                     extra_owner=spec.get("extra_owner", ()))
+                     extra_owner=spec.get("extra_owner", ()), extra_fn=spec.get("extra"))
